@@ -76,7 +76,12 @@ class Ctx:
             # native builds of the drivers (none imports Mathlib); optional: lean_driver falls back to the interpreter when one is missing or stale
             if ok:
                 for d in drivers:
-                    run_cmd(['lake', 'build', d.lower() + '_driver'], cwd=LEAN_DIR, timeout=3000)
+                    rc, _o, _e = run_cmd(['lake', 'build', d.lower() + '_driver'], cwd=LEAN_DIR, timeout=3000)
+                    exe = os.path.join(LEAN_DIR, '.lake', 'build', 'bin', d.lower() + '_driver')
+                    if rc == 0 and os.path.exists(exe):
+                        # lake (content hashes) says the executable is current: a Generated/ file rewritten with its old content has a newer
+                        # time stamp and would make lean_driver (which goes by time stamps) fall back to the slow interpreter
+                        os.utime(exe)
         return res
 
     def theorems_in(self, relpath):
